@@ -534,8 +534,10 @@ class PdoMap:
             raise ValueError("A valid transmission period has not been given")
         logger.info("Starting %s with a period of %s seconds", self.name, self.period)
 
+        # Hand over a copy, the task must not see in-place changes of the
+        # data before update() tells it about them
         self._task = self.pdo_node.network.send_periodic(
-            self.cob_id, self.data, self.period)
+            self.cob_id, bytes(self.data), self.period)
 
     def stop(self) -> None:
         """Stop transmission."""
